@@ -79,6 +79,20 @@ def eval_render(case):
     if isinstance(v, AnsiStr):
         if str.__str__(v) != d:
             o.fail('ansistr-payload', describe(v))
+    if isinstance(v, AnsiString) and not o.fails:
+        # an AnsiStr made from this value must keep rendering what it reports, whatever happens to the source afterwards
+        b = AnsiStr(v)
+        v.apply_formatting('italic', 0, max(1, len(t) // 2))
+        v += 'q'
+        tb, pb = b.base_str, per_char(b)
+        if wellformed(pb):
+            outs_b = check_render(o, b, tb, pb)
+            dflt = outs_b[(True, False, True)]
+            for nm, got in (('str', str(b)), ('format', format(b, '')), ('payload', str.__str__(b)), ('%s', '%s' % b)):
+                if got != dflt:
+                    o.fail('ansistr-after-source-mutation', 'AnsiStr made from %r %s: %s gives %r but to_str() gives %r (reports %s)' % (
+                        t, per, nm, got, dflt, describe(b)))
+                    break
     sty = styles(per)
     trans = [(sty[i - 1], sty[i]) for i in range(1, len(sty)) if sty[i] != sty[i - 1]]
     clears = any(set(dict(a)) - set(dict(b)) for a, b in trans)
